@@ -53,7 +53,10 @@ RULE_ADDED = (
               'sends the PIN once. '
               ' '
               'Round 15: version components 127, 128, 200 in the grids; unlock-exchange faults '
-              'on SGX too. ')
+              'on SGX too. '
+              ' '
+              'Round 16: the SGX peer closing the connection right after taking the unlock comm'
+              'and. ')
 RULE = RULE + " " + RULE_ADDED.strip()
 ASSUMPTIONS = [
     "simulated device + fake transports trusted",
@@ -287,8 +290,14 @@ def run_config(acc, c, tmpdir, live=False):
             f = Fault(c["unlock_fault"], processed=True) if c["unlock_fault"] != "late" \
                 else Fault("late")
             s.bus.arm_cmd({0xFE: f, 0xA3: f})
-            # (over TCP the failure comes in the shapes the dongle layer classifies)
-            s.bus.tcp_faults_as_hid = True
+            # (over TCP the failure comes in the shapes the dongle layer classifies - or, for
+            # half of the read errors, as what the real transport makes of a peer that took
+            # the command and then closed the connection: an empty read, struct.error)
+            s.bus.tcp_faults_as_hid = not (c["platform"] == "sgx" and
+                                           c["unlock_fault"] == "read_error" and
+                                           zlib.crc32(key.encode()) % 2 == 0)
+            if not s.bus.tcp_faults_as_hid:
+                acc.count("unlock_exchanges_after_which_the_sgx_peer_closes")
             acc.count("unlock_exchange_faults" + ("_sgx" if c["platform"] == "sgx" else ""))
         if live:
             hang = {}
